@@ -283,3 +283,17 @@ Proof.
   intro H. destruct (create_program_windows (norm p) en mm prog H) as (_ & Hd & Hw).
   destruct (norm_sem p en mm) as (_ & A2 & _ & A4). rewrite <- A2, <- A4. auto.
 Qed.
+
+(* the constructors leave no constraint-free mapping directly inside a mapping (chains collapse completely) *)
+Lemma forallb_map_norm subs : Forall (fun p => merged (norm p) = true) subs -> forallb merged (map norm subs) = true.
+Proof. induction 1; cbn [map forallb]; [reflexivity|]. now rewrite H, IHForall. Qed.
+
+Theorem norm_merged p : merged (norm p) = true.
+Proof.
+  induction p using pt_ind'; cbn [norm merged]; auto.
+  - now apply forallb_map_norm.
+  - now rewrite IHp1, IHp2.
+  - now apply forallb_map_norm.
+  - unfold mk_map. destruct (norm p) eqn:E; cbn [merged] in *; rewrite ?IHp; try reflexivity.
+    destruct cs0; cbn [merged]; [exact IHp | now rewrite IHp].
+Qed.
